@@ -25,7 +25,7 @@ PAYLOADS = ('internal', 'nested', 'parameter', 'external_file', 'external_http',
             'unused', 'attr_only', 'benign_empty_subset', 'benign_element_decl', 'benign_none')
 BENIGN = ('benign_empty_subset', 'benign_element_decl', 'benign_none')
 PROLOGS = ('plain', 'bom8', 'utf16', 'latin1', 'pad9k', 'pad17k', 'pad66k', 'subsetpad66k', 'standalone', 'standalone')
-ROLES = ('instance', 'instance_lazy', 'validate', 'main_schema', 'included', 'imported', 'redefined', 'hinted')
+ROLES = ('instance', 'instance_lazy', 'validate', 'main_schema', 'included', 'imported', 'redefined', 'hinted', 'docapi_schema')
 
 # channel catalogue: (name, kind, seekable, url attribute, base_url class)
 CHANNELS = []
@@ -40,6 +40,8 @@ for base in (None, 'remote', 'local'):
 CHANNELS += [('bytesio', 'bytesio', True, None, None), ('stringio', 'stringio', True, None, None),
              ('path', 'path', True, None, None), ('fileurl', 'fileurl', True, None, None),
              ('http', 'http', False, None, None), ('http_opener', 'http_opener', False, None, None),
+             # remote URLs WITHOUT a path: their base URL has no network location left ('http:')
+             ('http-nopath', 'http_nopath', False, None, None), ('http-query', 'http_query', False, None, None),
              ('raw-noseek-base-remote', 'raw', False, None, 'remote'),
              ('buffered-noseek-base-remote', 'buffered', False, None, 'remote')]
 
@@ -162,6 +164,12 @@ class C13(Check):
         if role == 'hinted':
             chan = rng.choice([x for x in CHANNELS if x[0] in ('path', 'fileurl', 'http')])
         peer = 'constant'
+        if role == 'docapi_schema' and chan[1] in ('raw', 'buffered', 'textio', 'duck', 'stringio', 'bytesio'):
+            chan = rng.choice([x for x in CHANNELS if x[0] in ('path', 'fileurl', 'http', 'text-base-None', 'text-base-remote')])
+        if chan[1] in ('text', 'stringio', 'textio') and prolog in ('bom8', 'utf16', 'latin1'):
+            prolog = 'plain'
+        if chan[1] in ('http_nopath', 'http_query') and role not in ('instance', 'instance_lazy', 'validate', 'main_schema'):
+            role = rng.choice(['instance', 'instance_lazy', 'validate', 'main_schema'])
         if chan[1] in ('http', 'http_opener') and rng.random() < 0.5:
             peer = rng.choice(['payload_then_benign', 'benign_then_payload'])
         case = {'mode': mode, 'chan': chan[0], 'role': role, 'payload': payload, 'prolog': prolog, 'peer': peer,
@@ -181,7 +189,7 @@ class C13(Check):
             return True
         if mode == 'never':
             return False
-        if kind in ('http', 'http_opener'):
+        if kind in ('http', 'http_opener', 'http_nopath', 'http_query'):
             locality = 'remote'
         elif kind in ('path', 'fileurl'):
             locality = 'local'
@@ -215,7 +223,7 @@ class C13(Check):
                 fp.write(f'<!ENTITY x "{MARK}">\n')
             urls = ('file://' + os.path.join(world, 'secret.txt'), 'http://sim.test/secret.txt',
                     'file://' + os.path.join(world, 'ext.dtd'))
-            is_schema = role in ('main_schema', 'included', 'imported', 'redefined', 'hinted')
+            is_schema = role in ('main_schema', 'included', 'imported', 'redefined', 'hinted', 'docapi_schema')
             tns = 'urn:imp' if role == 'imported' else None
             doc = build_doc(payload, prolog, is_schema, urls, tns)
             benign = build_doc('benign_none', 'plain', is_schema, urls, tns)
@@ -311,7 +319,7 @@ class C13(Check):
     def excused(self, case, chan, got):
         """Documented limits of the mechanism (never a different parse, only a refusal)."""
         name, kind, seekable, urlattr, base = chan
-        if (kind in ('http', 'http_opener') or case.get('part_locality') == 'remote') and \
+        if (kind in ('http', 'http_opener', 'http_nopath', 'http_query') or case.get('part_locality') == 'remote') and \
                 case['prolog'] in ('pad66k', 'subsetpad66k') and \
                 (got['exc'] in ('XMLResourceOSError', 'XMLResourceError', 'part-not-loaded') or
                  (case['role'] == 'hinted' and got['exc'] == 'XMLSchemaValueError')):
@@ -370,6 +378,10 @@ class C13(Check):
                     fp.write(data)
                 return p if kind == 'path' else 'file://' + p
             # http
+            if kind == 'http_nopath':
+                url = 'http://sim.test'
+            elif kind == 'http_query':
+                url = 'http://sim.test?doc=1'
             peer.pages[url] = bodies if data is doc else [data]
             peer.plans[url] = plan
             if kind == 'http_opener':
@@ -402,6 +414,14 @@ class C13(Check):
                 src = source_for(doc, 'main.xsd', 'http://sim.test/main.xsd')
                 schema = xmlschema.XMLSchema(src, base_url=base_url, defuse=mode, opener=opener)
                 trees += [s.root for s in schema.maps.iter_schemas() if s.meta_schema is not None]
+            elif role == 'docapi_schema':
+                # the document-level API builds the schema from a SOURCE given by the caller, with the defuse argument
+                # of the call (xmlschema.validate(doc, schema='main.xsd', defuse='always') and friends)
+                src = source_for(doc, 'main.xsd', 'http://sim.test/main.xsd')
+                from xmlschema.documents import get_context
+                kw = {'base_url': base_url} if base_url is not None else {}
+                res, schema = get_context('<incel>x</incel>', schema=src, defuse=mode, **kw)
+                trees += [s_.root for s_ in schema.maps.iter_schemas() if s_.meta_schema is not None]
             elif role == 'hinted':
                 # a benign INSTANCE whose xsi:noNamespaceSchemaLocation names the payload schema document: the
                 # package-level API builds the schema from the hint with the same defuse argument
